@@ -573,6 +573,54 @@ impl SlotState {
     {
         assert(s.inv_b(b, false));
     }
+    // a slot state with no stored vote and all counters at zero is well formed (SlotState::new)
+    pub proof fn lemma_wf_of_an_empty_state(s: &SlotState)
+        requires
+            s.wf_epoch(), s.votes.shape(s.nv()),
+            forall|v: int| 0 <= v < s.nv() ==> (#[trigger] s.votes.vv(v)) == (VV { notar: None, nf: Set::<BlockHash>::empty(), skip: false, skip_fb: false, fin: false }),
+            s.voted_stakes.notar@ == Map::<BlockHash, Stake>::empty(), s.voted_stakes.notar_fallback@ == Map::<BlockHash, Stake>::empty(),
+            s.voted_stakes.skip.0 == 0, s.voted_stakes.skip_fallback.0 == 0, s.voted_stakes.finalize.0 == 0,
+            s.voted_stakes.notar_or_skip.0 == 0, s.voted_stakes.top_notar.0 == 0,
+        ensures s.wf(),
+    {
+        let n = s.nv();
+        let st = s.stakes();
+        let e = VV { notar: None, nf: Set::<BlockHash>::empty(), skip: false, skip_fb: false, fin: false };
+        assert forall|v: int| 0 <= v < n implies (#[trigger] s.votes.notar@[v]) is None by { assert(s.votes.vv(v) == e); }
+        assert forall|v: int| 0 <= v < n implies (#[trigger] s.votes.skip@[v]) is None by { assert(s.votes.vv(v) == e); }
+        assert forall|v: int| 0 <= v < n implies (#[trigger] s.votes.skip_fallback@[v]) is None by { assert(s.votes.vv(v) == e); }
+        assert forall|v: int| 0 <= v < n implies (#[trigger] s.votes.finalize@[v]) is None by { assert(s.votes.vv(v) == e); }
+        assert forall|v: int| 0 <= v < n implies (#[trigger] s.votes.notar_fallback@[v])@.dom() == Set::<BlockHash>::empty() by { assert(s.votes.vv(v) == e); }
+        assert forall|v: int, h: BlockHash| 0 <= v < n implies !(#[trigger] s.votes.notar_fallback@[v]@.contains_key(h)) by {
+            assert(s.votes.notar_fallback@[v]@.dom() == Set::<BlockHash>::empty());
+            assert(!s.votes.notar_fallback@[v]@.dom().contains(h));
+        }
+        assert forall|v: int| 0 <= v < n implies (#[trigger] s.votes.notar_fallback@[v])@.dom().finite() by {
+            assert(s.votes.notar_fallback@[v]@.dom() == Set::<BlockHash>::empty());
+        }
+        assert(s.wf_votes());
+        assert forall|h: BlockHash| Self::map_stake(s.voted_stakes.notar@, h) == s.sum(s.c_notar(h, Pending::Nothing)) by {
+            assert forall|v: int| 0 <= v < n implies !#[trigger] s.c_notar(h, Pending::Nothing)(v) by { assert(s.votes.notar@[v] is None); }
+            lemma_sum_none(st, n, s.c_notar(h, Pending::Nothing));
+        }
+        assert forall|h: BlockHash| Self::map_stake(s.voted_stakes.notar_fallback@, h) == s.sum(s.c_nf(h, Pending::Nothing)) by {
+            assert forall|v: int| 0 <= v < n implies !#[trigger] s.c_nf(h, Pending::Nothing)(v) by { assert(!s.votes.notar_fallback@[v]@.contains_key(h)); }
+            lemma_sum_none(st, n, s.c_nf(h, Pending::Nothing));
+        }
+        assert forall|v: int| 0 <= v < n implies !#[trigger] s.c_skip(Pending::Nothing)(v) by { assert(s.votes.skip@[v] is None); }
+        lemma_sum_none(st, n, s.c_skip(Pending::Nothing));
+        assert forall|v: int| 0 <= v < n implies !#[trigger] s.c_skip_fb(Pending::Nothing)(v) by { assert(s.votes.skip_fallback@[v] is None); }
+        lemma_sum_none(st, n, s.c_skip_fb(Pending::Nothing));
+        assert forall|v: int| 0 <= v < n implies !#[trigger] s.c_final(Pending::Nothing)(v) by { assert(s.votes.finalize@[v] is None); }
+        lemma_sum_none(st, n, s.c_final(Pending::Nothing));
+        assert forall|v: int| 0 <= v < n implies !#[trigger] s.c_nos(Pending::Nothing)(v) by { assert(s.votes.notar@[v] is None); assert(s.votes.skip@[v] is None); }
+        lemma_sum_none(st, n, s.c_nos(Pending::Nothing));
+        assert forall|h: BlockHash| s.sum(s.c_notar(h, Pending::Nothing)) <= s.voted_stakes.top_notar.0 by {
+            assert forall|v: int| 0 <= v < n implies !#[trigger] s.c_notar(h, Pending::Nothing)(v) by { assert(s.votes.notar@[v] is None); }
+            lemma_sum_none(st, n, s.c_notar(h, Pending::Nothing));
+        }
+        assert(s.wf_stakes(Pending::Nothing));
+    }
     // a slot state in which nothing has been counted and nothing signalled satisfies the completeness invariant (SlotState::new)
     pub proof fn lemma_inv_of_an_empty_state(s: &SlotState)
         requires
